@@ -6,11 +6,15 @@ import (
 	"os"
 	"path/filepath"
 	"sort"
+	"strings"
+	"sync"
 	"sync/atomic"
+	"time"
 
 	"github.com/nspcc-dev/neofs-node/pkg/local_object_storage/blobstor/common"
 	"github.com/nspcc-dev/neofs-node/pkg/local_object_storage/blobstor/fstree"
 	"github.com/nspcc-dev/neofs-node/pkg/local_object_storage/writecache"
+	"github.com/nspcc-dev/neofs-node/pkg/util/verifhook"
 	oid "github.com/nspcc-dev/neofs-sdk-go/object/id"
 )
 
@@ -56,6 +60,8 @@ func wcGen(c *runCtx, run func([]string)) {
 			switch k := c.rng.IntN(100); {
 			case k < 50:
 				ops = append(ops, fmt.Sprintf("wc put a=%d psize=%d", a, psize[a]))
+			case k < 57:
+				ops = append(ops, fmt.Sprintf("wc cput a=%d k=%d psize=%d n=%d", 100+10*j, 6, c.rng.IntN(3), 2+c.rng.IntN(3)))
 			case k < 65:
 				ops = append(ops, fmt.Sprintf("wc del a=%d", a))
 			case k < 80:
@@ -97,6 +103,8 @@ func wcExec(c *runCtx, ops []string) {
 	wc := newCache()
 	defer func() { wc.Close() }()
 	lens := map[int]int{} // last stored marshalled length per address (shadow of acknowledged puts)
+	var sizeOK bool
+	var sizeDetail string
 	observe := func() string {
 		writecache.VerifQuiesce(wc)
 		size, n := writecache.VerifSize(wc)
@@ -107,15 +115,15 @@ func wcExec(c *runCtx, ops []string) {
 			total += uint64(len(d))
 			return nil
 		})
-		sort.Strings(files)
+		sortKV(files)
 		var mains []string
 		_ = main.Iterate(func(a oid.Address, d []byte) error {
 			mains = append(mains, fmt.Sprintf("%d:%d", oidNum(a.Object()), len(d)))
 			return nil
 		}, nil)
-		sort.Strings(mains)
-		c.oracle("reported-size-equals-held-bytes", size == total && n == len(files),
-			fmt.Sprintf("reported size %d for %d objects, the cache holds %d bytes in %d files %v", size, n, total, len(files), files))
+		sortKV(mains)
+		sizeOK = size == total && n == len(files)
+		sizeDetail = fmt.Sprintf("reported size %d for %d objects, the cache holds %d bytes in %d files %v", size, n, total, len(files), files)
 		j := func(x []string) string {
 			if len(x) == 0 {
 				return "-"
@@ -146,6 +154,52 @@ func wcExec(c *runCtx, ops []string) {
 				res = "noSpace"
 			default:
 				res = "err"
+			}
+		case "cput":
+			// k objects, each put for the first time by n concurrent writers that are lined up (spin barrier) right
+			// before the accounting step (point wc.put.afterFile): every object must be accounted once
+			a0, k, n := o.int("a"), o.int("k"), o.int("n")
+			res = "ok"
+			var lensNew []string
+			for j := 0; j < k; j++ {
+				a := a0 + j
+				obj := mkObject(1, a, detPayload(o.int("psize"), a))
+				data := obj.Marshal()
+				lensNew = append(lensNew, fmt.Sprint(len(data)))
+				var arrived atomic.Int32
+				deadline := time.Now().Add(2 * time.Second)
+				verifhook.SetPoint(func(name string) {
+					if name != "wc.put.afterFile" {
+						return
+					}
+					arrived.Add(1)
+					for int(arrived.Load()) < n && time.Now().Before(deadline) { // spin: release all writers at once
+					}
+				})
+				errs := make([]error, n)
+				var wg sync.WaitGroup
+				for i := 0; i < n; i++ {
+					wg.Add(1)
+					go func(i int) {
+						defer wg.Done()
+						errs[i] = wc.Put(numAddr(1, a), obj, data)
+					}(i)
+				}
+				wg.Wait()
+				verifhook.SetPoint(nil)
+				for _, err := range errs {
+					if errors.Is(err, writecache.ErrOutOfSpace) {
+						res = "noSpace"
+					} else if err != nil {
+						res = "err"
+					}
+				}
+				if res == "ok" {
+					lens[a] = len(data)
+				}
+			}
+			if _, ok := o.kv["lens"]; !ok {
+				full = fmt.Sprintf("%s lens=%s", line, strings.Join(lensNew, ","))
 			}
 		case "del":
 			err := wc.Delete(numAddr(1, o.int("a")))
@@ -186,8 +240,19 @@ func wcExec(c *runCtx, ops []string) {
 			continue
 		}
 		c.emit(full, "=> "+res+" "+observe())
+		c.oracle("reported-size-equals-held-bytes", sizeOK, sizeDetail) // after emit: the op is part of the witness
 	}
 	if len(ops) > 5 {
 		c.nontrivial(fmt.Sprint(ops))
 	}
+}
+
+// sortKV orders "id:len" entries by numeric id (the model lists them in id order).
+func sortKV(xs []string) {
+	num := func(s string) int {
+		n := 0
+		fmt.Sscanf(s, "%d:", &n)
+		return n
+	}
+	sort.Slice(xs, func(i, j int) bool { return num(xs[i]) < num(xs[j]) })
 }
